@@ -79,6 +79,9 @@ type TxnProg struct {
 	Ops   []Op `json:"ops"`
 	Abort bool `json:"abort,omitempty"` // the callback returns an error at the end
 	Panic bool `json:"panic,omitempty"` // ... or rather panics at the end (the client recovers): the transaction is neither committed nor rolled back
+	// Direct: the body is one operation issued through the collection-level convenience call
+	// (Collection.DeleteAt / DeleteKey), which runs a transaction of its own
+	Direct bool `json:"direct,omitempty"`
 }
 
 // Op is one operation inside a transaction body.
